@@ -367,6 +367,15 @@ pub fn print_guard(g: &G) -> String {
     }
 }
 
+/// The guard as a user writes it after `if`: no parentheses around the outermost `||` / `&&`.
+pub fn print_guard_user(g: &G) -> String {
+    match g {
+        G::And(a, b) => format!("{} && {}", print_guard(a), print_guard(b)),
+        G::Or(a, b) => format!("{} || {}", print_guard(a), print_guard(b)),
+        other => print_guard(other),
+    }
+}
+
 pub fn print_pat(p: &P, ty: Ty) -> String {
     let f = |o: &Option<Box<P>>, name: &str, t: Ty| o.as_ref().map(|p| format!("{name}: {}", print_pat(p, t)));
     match p {
